@@ -259,6 +259,8 @@ func (r *replayer) step(st *step) {
 		r.at(d, "daemon.spawned")
 		w.let(d)
 		if st.R == "ok" {
+			// bind; the listen(2) of the same net.Listen follows at once (StartListen), and only then
+			// the hook: both are awaited here so that the path can be projected after this step
 			r.expect(d, "daemon.listening", -1)
 			w.noteListening(st.D)
 		} else {
@@ -266,6 +268,8 @@ func (r *replayer) step(st *step) {
 			w.let(d)
 			r.expect(d, "daemon.returned", 2)
 		}
+	case "StartListen":
+		r.at(r.daemon(st.D), "daemon.listening")
 	case "OpenDb":
 		d := r.daemon(st.D)
 		r.at(d, "daemon.listening")
